@@ -14,6 +14,7 @@ import (
 
 	spg "go.1password.io/spg"
 
+	"verifharness/explore"
 	"verifharness/gen"
 	"verifharness/tape"
 )
@@ -74,6 +75,24 @@ type c01Plan struct {
 	small  []uint32 // each: c01Shards cases
 	large  []uint32 // each: 1 case
 	scouts int
+	gens   int // generator-level cases: complete trees of small recipes (every pick of one of n alternatives)
+}
+
+// c01GenPanel: recipes whose complete decision trees are checked against the uniform product law, so that
+// a generator that redraws, skips or reweights a pick (rather than the bounded draw itself) is seen too.
+var c01GenWL = []WLCase{
+	{Words: []string{"alpha", "bravo", "charlie", "2nd", "Paris"}, Length: 2, Scheme: "first", SepKind: "char", SepChar: " "},
+	{Words: []string{"alpha", "bravo", "2nd"}, Length: 3, Scheme: "one", SepKind: "char", SepChar: "-"},
+	{Words: []string{"alpha", "Paris", "語"}, Length: 2, Scheme: "random", SepKind: "char", SepChar: ""},
+	{Words: []string{"alpha", "bravo", "charlie"}, Length: 2, Scheme: "all", SepKind: "preset", Preset: "SFDigits1"},
+	{Words: []string{"a", "b", "c", "d", "e", "f", "g"}, Length: 2, Scheme: "none", SepKind: "preset", Preset: "SFSymbols"},
+	{Words: []string{"x", "7up", "y"}, Length: 3, Scheme: "all", SepKind: "char", SepChar: "."},
+}
+var c01GenChar = []spg.CharRecipe{
+	{Length: 3, AllowChars: "abcde"},
+	{Length: 2, Allow: spg.Digits},
+	{Length: 3, AllowChars: "abc", RequireSets: []string{"a"}},
+	{Length: 2, AllowChars: "é語🙂xyz"},
 }
 
 func c01PlanFor(tier string, seed uint64) c01Plan {
@@ -89,6 +108,7 @@ func c01PlanFor(tier string, seed uint64) c01Plan {
 	if tier == "thorough" {
 		p.scouts = 256
 	}
+	p.gens = len(c01GenWL) + len(c01GenChar)
 	return p
 }
 
@@ -104,7 +124,7 @@ func init() {
 		MinEvals: 1 << 32,
 		NumCases: func(tier string, seed uint64) int {
 			p := c01PlanFor(tier, seed)
-			return len(p.large) + len(p.small)*c01Shards + p.scouts
+			return len(p.large) + len(p.small)*c01Shards + p.scouts + p.gens
 		},
 		Cost: func(tier string, seed uint64, i int) int {
 			p := c01PlanFor(tier, seed)
@@ -211,8 +231,16 @@ func c01Case(c *Ctx) {
 	case i < len(p.large)+len(p.small)*c01Shards:
 		k := i - len(p.large)
 		c01Shard(c, p.small[k/c01Shards], k%c01Shards)
-	default:
+	case i < len(p.large)+len(p.small)*c01Shards+p.scouts:
 		c01Scout(c, i-len(p.large)-len(p.small)*c01Shards, p.scouts)
+	default:
+		k := i - len(p.large) - len(p.small)*c01Shards - p.scouts
+		c.Count("generator_level_trees", 1)
+		if k < len(c01GenWL) {
+			c04Tree(c, c01GenWL[k], explore.Limits{MaxLeaves: 30000, MaxDraws: 64}, "generator-pick:", false)
+		} else {
+			c02Tree(c, charTreeCase{Rec: c01GenChar[k-len(c01GenWL)], Trials: 2, FailRate: 1, Lim: explore.Limits{MaxLeaves: 30000, MaxDraws: 64}}, "generator-pick:")
+		}
 	}
 }
 
